@@ -7,7 +7,7 @@ import json, os, re, shutil, sys
 root, rnd, regress = sys.argv[1], int(sys.argv[2]), sys.argv[3]
 res = {}
 for line in open(regress):
-    m = re.match(r'round(\d) (C\d\d) (\d+) == (C\d\d) rc=(\d+)\s*(.*)', line.strip())
+    m = re.match(r'round(\d+) (C\d\d) (\d+) == (C\d\d) rc=(\d+)\s*(.*)', line.strip())
     if m and int(m.group(1)) == rnd:
         res[m.group(2)] = {'violations_reported': int(m.group(3)), 'exit': int(m.group(5)), 'first_violation': m.group(6).strip()}
 for pid in sorted(os.listdir(root)):
